@@ -53,6 +53,7 @@ class EntryMonitor:
     def check(self, kind, s, pre, post):
         b = self.b
         self.taken.append((b.tick, kind))
+        self.last_post = (b.tick, post)          # the state right after the entry routine: nothing else may happen in the same step
         if (s['cpsr'] >> 24) & 1 and not (s['cpsr'] >> 5) & 1:
             # entry from Jazelle state (only reachable in configurations that have the extension): its return-address offsets are
             # not modelled.  ThumbEE state (J=1, T=1) uses the Thumb offsets and is compared
